@@ -142,15 +142,20 @@ def sp_quat(F, variant=None):
 _FLAYOUT_COUNTER = [0]
 
 
-def f_layout(a):
+def f_layout(a, byteorder_only=False):
     """a float array (an image, a kernel, a real plane) with the same values in a MEMORY LAYOUT that cycles through C order,
-    Fortran order, a transposed-axes view, a read-only array and a negative-stride view - like q_from_float does for
+    Fortran order, a transposed-axes view, a read-only array, a negative-stride view and a non-native byte order - like q_from_float does for
     quaternion matrices (VERIF_LAYOUTS=0 switches the cycling off)"""
     a = np.array(a, dtype=np.float64, copy=True)
     if a.ndim < 2 or os.environ.get("VERIF_LAYOUTS", "1") == "0":
         return a
+    if byteorder_only:
+        _FLAYOUT_COUNTER[0] += 1
+        return a.astype(">f8") if _FLAYOUT_COUNTER[0] % 3 == 0 else (np.asfortranarray(a) if _FLAYOUT_COUNTER[0] % 3 == 1 else a)
     _FLAYOUT_COUNTER[0] += 1
-    k = _FLAYOUT_COUNTER[0] % 5
+    k = _FLAYOUT_COUNTER[0] % 6
+    if k == 5:
+        return a.astype(">f8")                 # non-native byte order (data read from big-endian storage): same values
     if k == 1:
         return np.asfortranarray(a)
     if k == 2:
